@@ -389,8 +389,12 @@ impl Term {
                 Abs(ref t) => stack.push((depth + 1, t)),
                 App(boxed) => {
                     let (ref f, ref a) = **boxed;
-                    stack.push((depth, f));
-                    stack.push((depth, a))
+                    for t in [f, a] {
+                        // an abstraction inside the body has to be a supercombinator itself,
+                        // so it may not refer to any of the enclosing binders
+                        let depth = if let Abs(_) = *t { 0 } else { depth };
+                        stack.push((depth, t));
+                    }
                 }
             }
         }
